@@ -105,7 +105,12 @@ func pruneEmpty(dst, src proto.Message, mask fmutils.NestedMask) {
 			return true
 		}
 		if !srcPr.Has(d) {
-			dstPr.Clear(d)
+			if len(fieldMask) > 0 && d.Kind() == protoreflect.MessageKind && d.Cardinality() != protoreflect.Repeated {
+				// the mask only mentions some fields of this message, the others must be left as they are
+				fieldMask.Prune(dstPr.Get(d).Message().Interface())
+			} else {
+				dstPr.Clear(d)
+			}
 			return true
 		}
 		if d.Kind() == protoreflect.MessageKind && d.Cardinality() != protoreflect.Repeated {
